@@ -22,6 +22,7 @@ import PMH.Model.JaccardBounds
 import PMH.Model.Hashers
 import PMH.Model.JaccardBoundsGen
 import PMH.Model.Exp01Gen
+import PMH.Model.PmhConstGen
 import Std.Data.HashMap
 /-!
 # `pmhdriver`: line protocol in front of the executable models
@@ -330,7 +331,7 @@ def stepPmh3 (st : DState) : List String → DState × String
     | some m, some init =>
       (match (PMH3.new f64Max m init : Except Err (PMH3 Float Xo)) with
        | .ok s =>
-         let lambda := Float.log (m.toFloat / (m - 1).toFloat)
+         let lambda := Gen.pmh3Lambda expOps m      -- the rate as the SOURCE computes it (Model/PmhConstGen.lean)
          ({ st with pmh3 := st.pmh3.insert n (s, Gen.exp01New expOps lambda) }, "ok")
        | .error e => (st, errWord e))
     | _, _ => (st, "bad-op")
@@ -356,7 +357,10 @@ def stepPmh3 (st : DState) : List String → DState × String
 
 def stepPmh2 (st : DState) : List String → DState × String
   | ["new", n, m, init] => match m.toNat?, init.toNat? with
-    | some m, some init => ({ st with pmh2 := st.pmh2.insert n (PMH2.new f64Max m init) }, "ok")
+    | some m, some init =>
+      -- the beta table as the SOURCE computes it (Model/PmhConstGen.lean, regenerated on every check)
+      let s : PMH2 Float := { (PMH2.new f64Max m init : PMH2 Float) with betas := (Array.range m).map (fun x => Gen.pmh2Beta m x) }
+      ({ st with pmh2 := st.pmh2.insert n s }, "ok")
     | _, _ => (st, "bad-op")
   | ["item", n, tok] => match st.pmh2[n]?, parseItem tok with
     | some s, some (id, w, g) =>
